@@ -4,6 +4,7 @@
 import Csvq.Model.Cursor
 import Csvq.Gen.CursorFetch
 import Csvq.Gen.CursorOps
+import Csvq.Gen.CursorLocks
 namespace Csvq.Cursor
 open Csvq
 
@@ -110,6 +111,27 @@ def interpState {α} (rows : List α) : StateOut → Option (Except Err (CState 
 def exceptToOption {ε β} : Except ε β → Option β
   | .ok b => some b
   | .error _ => none
+
+/-! ## lock discipline (checker over the paths regenerated from cursor.go) -/
+
+/-- one control-flow path, as the mutex operations met: `held` — the mutex is locked, `deferred` — an
+    Unlock is deferred.  Refused: locking a held mutex (self-deadlock), unlocking a free one, deferring
+    twice, and a `return` / end of body with `held ≠ deferred` (the lock leaks, or the deferred Unlock hits a
+    free mutex). -/
+def lockPathGo (held deferred : Bool) : List String → Bool
+  | [] => held == deferred
+  | "lock" :: rest => !held && lockPathGo true deferred rest
+  | "unlock" :: rest => held && lockPathGo false deferred rest
+  | "defer-unlock" :: rest => held && !deferred && lockPathGo held true rest
+  | "return" :: _ => held == deferred
+  | _ :: _ => false
+
+def lockPathOK (p : List String) : Bool := lockPathGo false false p
+
+def locksBalanced (ps : List (List String)) : Bool := ps.all lockPathOK
+
+/-- the paths of one function of cursor.go -/
+def lockPathsOf (fn : String) : Option (List (List String)) := Gen.CursorLocks.paths.lookup fn
 
 /-! ## arithmetic -/
 
